@@ -121,6 +121,30 @@ func runSegCase(c *SegCase, st *Stats) {
 		dmg = append(dmg, segDamage{desc, nlog, nidx, present, idxOnly})
 	}
 	thorough := thoroughTier()
+	// both files at once: a sample of the log damages is also tried with the index file missing and with an index
+	// file without items (what a crash before the first item write, or an operator removing index files, leaves)
+	add1 := add
+	hdrOnly := []byte{}
+	if IsV2Index(idxB) {
+		hdrOnly = append([]byte{}, idxB[:8]...)
+	}
+	combo := 0
+	add = func(desc string, nlog, nidx []byte, present, idxOnly bool) {
+		add1(desc, nlog, nidx, present, idxOnly)
+		if idxOnly || desc == "none" {
+			return
+		}
+		combo++
+		every := 6
+		if thorough {
+			every = 2
+		}
+		if combo%every != 0 {
+			return
+		}
+		add1(desc+" + index missing", nlog, nil, false, false)
+		add1(desc+" + index without items", nlog, hdrOnly, true, false)
+	}
 	// undamaged control
 	add("none", logB, idxB, true, false)
 	// truncations: 0, and every length at/after the 8-byte header
